@@ -555,6 +555,9 @@ Fixpoint norm_tab (tab : list (list Qc * Qc)) (v : list Qc) : Qc :=
 Definition close_list (tol : Qc) (a b : list Qc) : bool :=
   Nat.eqb (List.length a) (List.length b) &&
   forallb (fun p => qclose tol (Qcx.q 1 1 + Qcabs (fst p))%Qc (fst p) (snd p)) (combine a b).
+Definition close_list2 (tol scale : Qc) (a b : list (list Qc)) : bool :=
+  Nat.eqb (List.length a) (List.length b) &&
+  forallb (fun p => qlist_close tol scale (fst p) (snd p)) (combine a b).
 Definition sq_score (ks : list qclass) (x t : list Qc) : Qc := dot (map (fun v => (v * v)%Qc) (fquad_out ks x)) t.
 Definition sq_grad (ks : list qclass) (x t : list Qc) : list Qc :=
   fquad_grad ks x (map2 (fun o tc => (two * o * tc)%Qc) (fquad_out ks x) t).
@@ -654,6 +657,21 @@ def coq_term(case, res):
                 model = f"map2 (fun x t => map Qcabs ({grad} x t)) {xs} {ts}"
             else:
                 model = f"map2 (fun x t => vmul x ({grad} x t)) {xs} {ts}"
+        if sq:
+            # tf's `** 2` is pow(): not exact in float32 (observed: 19.9375 ** 2 off by one ulp); the squared scores are
+            # compared within 1e-5 of the largest |t| . o^2 the method can evaluate (inputs with any subset of features at 0)
+            from math import ceil
+            plain = fam.FQuadNumpy(case["params"])
+            big = 1.0
+            for x, t in zip(case["xs"], case["ts"]):
+                pts = [np.array(x, np.float64)]
+                for a in range(0, ceil((case["d"] - case["patch"] + 1) / case["stride"])) if case["method"] == "Occlusion" else []:
+                    z = np.array(x, np.float64)
+                    z[a * case["stride"]:a * case["stride"] + case["patch"]] = 0.0
+                    pts.append(z)
+                o = plain(np.stack(pts))
+                big = max(big, float(np.max((o * o) @ np.abs(np.array(t, np.float64)))), float(np.max(np.abs(o)) * np.max(np.abs(t)) * 2 * (1 + np.max(np.abs(x)))))
+            return f"close_list2 {TOL} {core.cq(big)} ({model}) {core.cqlist2(res['maps'])}"
         return f"qlist2_eqb ({model}) {core.cqlist2(res['maps'])}"
     # olayer
     for name, r in res["methods"].items():
